@@ -83,7 +83,7 @@ def SimpleFins : List Frame → Prop
   | [] => True
   | .tryK _ (some fb) :: k => (∃ vs, fb = litLogs vs) ∧ SimpleFins k
   | .catchK (some fb) :: k => (∃ vs, fb = litLogs vs) ∧ SimpleFins k
-  | .finK (some (.ret _ true)) _ :: _ => False    -- (a second return() abandoning a return-triggered finally: excluded)
+  | .forOfK _ _ it _ :: k => (iterClose it).2 = none ∧ SimpleFins k   -- the iterator's return() does not throw
   | _ :: k => SimpleFins k
 
 def blockLogs : List Stmt → List Event
@@ -102,7 +102,7 @@ def finLogs : List Frame → List Event
   | [] => []
   | .tryK _ (some fb) :: k => blockLogs fb ++ finLogs k
   | .catchK (some fb) :: k => blockLogs fb ++ finLogs k
-  | .forOfK _ it _ :: k => iterClose it ++ finLogs k
+  | .forOfK _ _ it _ :: k => (iterClose it).1 ++ finLogs k
   | _ :: k => finLogs k
 
 /-- Number of pending finally blocks. -/
@@ -112,28 +112,28 @@ def pendingFins : List Frame → Nat
   | .catchK (some _) :: k => pendingFins k + 1
   | _ :: k => pendingFins k
 
-theorem unwind_ret (v : Val) (b : Bool) (k : List Frame) (env : List Val) (hk : SimpleFins k) :
-    Reach { ctl := .abrupt (.ret v b), env := env, k := k } (finLogs k) { ctl := .abrupt (.ret v b), env := env, k := [] } := by
+theorem unwind_ret (v : Val) (k : List Frame) (env : List Val) (hk : SimpleFins k) :
+    Reach { ctl := .abrupt (.ret v), env := env, k := k } (finLogs k) { ctl := .abrupt (.ret v), env := env, k := [] } := by
   induction k with
   | nil => exact Reach.refl _
   | cons f k ih =>
     have pop : ∀ (ev : List Event),
-        step { ctl := .abrupt (.ret v b), env := env, k := f :: k } = .cont { ctl := .abrupt (.ret v b), env := env, k := k } ev →
+        step { ctl := .abrupt (.ret v), env := env, k := f :: k } = .cont { ctl := .abrupt (.ret v), env := env, k := k } ev →
         SimpleFins k → finLogs (f :: k) = ev ++ finLogs k →
-        Reach { ctl := .abrupt (.ret v b), env := env, k := f :: k } (finLogs (f :: k)) { ctl := .abrupt (.ret v b), env := env, k := [] } := by
+        Reach { ctl := .abrupt (.ret v), env := env, k := f :: k } (finLogs (f :: k)) { ctl := .abrupt (.ret v), env := env, k := [] } := by
       intro ev hs hk' hl
       rw [hl]; exact Reach.cons hs (ih hk')
     have fin : ∀ (vs : List Val) (fb : List Stmt), fb = litLogs vs →
-        step { ctl := .abrupt (.ret v b), env := env, k := f :: k }
-          = .cont { ctl := .exec fb, env := env, k := .finK (some (.ret v b)) false :: k } [] →
+        step { ctl := .abrupt (.ret v), env := env, k := f :: k }
+          = .cont { ctl := .exec fb, env := env, k := .finK (some (.ret v)) :: k } [] →
         SimpleFins k → finLogs (f :: k) = blockLogs fb ++ finLogs k →
-        Reach { ctl := .abrupt (.ret v b), env := env, k := f :: k } (finLogs (f :: k)) { ctl := .abrupt (.ret v b), env := env, k := [] } := by
+        Reach { ctl := .abrupt (.ret v), env := env, k := f :: k } (finLogs (f :: k)) { ctl := .abrupt (.ret v), env := env, k := [] } := by
       intro vs fb hfb hs hk' hl
       subst hfb
       rw [hl, blockLogs_litLogs]
-      have r1 := reach_litLogs vs env (.finK (some (.ret v b)) false :: k)
-      have s2 : step { ctl := .val .undef, env := env, k := .finK (some (.ret v b)) false :: k }
-          = .cont { ctl := .abrupt (.ret v b), env := env, k := k } [] := by rfl
+      have r1 := reach_litLogs vs env (.finK (some (.ret v)) :: k)
+      have s2 : step { ctl := .val .undef, env := env, k := .finK (some (.ret v)) :: k }
+          = .cont { ctl := .abrupt (.ret v), env := env, k := k } [] := by rfl
       have := Reach.cons hs (Reach.trans r1 (Reach.cons s2 (ih hk')))
       simpa using this
     cases f with
@@ -149,20 +149,18 @@ theorem unwind_ret (v : Val) (b : Bool) (k : List Frame) (env : List Val) (hk : 
       | some fb =>
         obtain ⟨⟨vs, hvs⟩, hk'⟩ := hk
         exact fin vs fb hvs (by rfl) hk' (by simp [finLogs])
-    | forOfK x it body => exact pop (iterClose it) (by simp [step, stepAbrupt, StepOut.addEv, throwMarks, isBrk]) hk (by simp [finLogs])
-    | finK p a =>
-      cases p with
-      | none => exact pop [] (by simp [step, stepAbrupt, StepOut.addEv, throwMarks, defectMarks]) hk (by simp [finLogs])
-      | some cp =>
-        cases cp with
-        | thr _ => exact pop [] (by simp [step, stepAbrupt, StepOut.addEv, throwMarks, defectMarks]) hk (by simp [finLogs])
-        | brk => exact pop [] (by simp [step, stepAbrupt, StepOut.addEv, throwMarks, defectMarks]) hk (by simp [finLogs])
-        | ret _ fc =>
-          cases fc with
-          | true => exact absurd hk (by simp [SimpleFins])
-          | false => exact pop [] (by simp [step, stepAbrupt, StepOut.addEv, throwMarks, defectMarks]) hk (by simp [finLogs])
-    | whileBodyK cd body => exact pop [] (by simp [step, stepAbrupt, StepOut.addEv, throwMarks, isBrk]) hk (by simp [finLogs])
-    | forArrK x r body => exact pop [] (by simp [step, stepAbrupt, StepOut.addEv, throwMarks, isBrk]) hk (by simp [finLogs])
+    | forOfK l x it body =>
+      obtain ⟨hc, hk'⟩ := hk
+      refine pop (iterClose it).1 ?_ hk' (by simp [finLogs])
+      simp only [step, stepAbrupt, loopAction]
+      generalize hcl : iterClose it = cl at hc
+      obtain ⟨ev, err⟩ := cl
+      simp only at hc
+      subst hc
+      simp
+    | whileBodyK l cd body => exact pop [] (by simp [step, stepAbrupt, loopAction]) hk (by simp [finLogs])
+    | forBodyK l x n body => exact pop [] (by simp [step, stepAbrupt, loopAction]) hk (by simp [finLogs])
+    | forArrK l x r body => exact pop [] (by simp [step, stepAbrupt, loopAction]) hk (by simp [finLogs])
     | _ => exact pop [] (by rfl) hk (by simp [finLogs])
 
 end GojaModel.C09
